@@ -180,6 +180,3 @@ func cmdReplay(args []string) int {
 	return 0
 }
 
-func (c *Ctx) lemmaObligations(name string) ([]*Obligation, error) {
-	return nil, fmt.Errorf("lemmas not supported yet")
-}
